@@ -140,6 +140,9 @@ impl Stepper {
                 self.k.kbd_out.outputs.events,
                 l.keycodes().collect::<Vec<_>>()
             );
+            if self.k.sequence_state.is_active() {
+                eprintln!("     seq={:x?} ovl={:x?}", self.k.sequence_state.sequence, self.k.sequence_state.overlapped_sequence);
+            }
         }
         if self.k.kbd_out.outputs.events.is_empty() {
             return;
